@@ -61,7 +61,7 @@ Definition pool_program_modelled : list (bytes * list pstmt) :=
      SGo "g2";
      SRange "c1" [SHook "verifOnMerge"];
      SRecv "c4";
-     SReturn]);
+     SRet]);
    ("g0",
     [SRange "c0"
        [SHook "verifBeforeFile";
